@@ -13,7 +13,7 @@ pub static SCENARIO: Scenario = Scenario {
     rule: "claim-history on GenericBuilder for every protocol: a sequence (length <= 12 quick, <= 40 thorough) of set_claim / remove_claim over a small pool of keys (so that overwrites and removals of live keys happen; keys: non-empty Unicode incl. escapes, quotes, non-BMP, keys equal to nested member names, registered keys through the seven typed constructors) and values (JSON trees to depth 5: strings with any Unicode, i64/u64 extremes, booleans, null, k/2^j floats, arrays, objects; native Rust values through Serialize: integers, String, Option, Vec, tuple, map, unit, a derived nested struct), then build, clean delivery and read-back through a validator-free GenericParser under a seeded hash order. Reference model: BTreeMap with last-write-wins and removal. Oracle: the returned JSON object equals the model exactly. No fault or time dimension: this is the 'operations against the implementation and an in-memory map' pattern. Non-trivial = history with >= 2 operations; distinct = distinct abstract traces.",
     runs: |t| match t {
         Tier::Quick => 60_000,
-        Tier::Thorough => 1_000_000,
+        Tier::Thorough => 3_000_000,
     },
     gen,
     judge: |run, obs| oracle::judge("C14", run, obs),
